@@ -179,7 +179,7 @@ func ZZVerifC09SameNode() {
 	nd.Races()
 	fsi, _ := NewFilespace()
 	fs := fsi.(*Filespace)
-	mode := nd.Choose("mode", 4)
+	mode := nd.Choose("mode", 6)
 	v1, v2 := nd.Bytes("v1", 2), nd.Bytes("v2", 2)
 	nd.Assume(!bytes.Equal(v1, v2))
 	var wg sync.WaitGroup
@@ -220,9 +220,37 @@ func ZZVerifC09SameNode() {
 		})
 		run(func() { e2 = fs.WriteFile("n", v2, filesystem.DefaultUnixFileMode) })
 		run(func() { seen, seenErr = fs.ReadFile("n") })
+	case 4: // the same new name as a file and as a directory
+		nd.Assume(fs.MkdirAll("d", filesystem.DefaultUnixDirMode) == nil)
+		run(func() { e1 = fs.WriteFile("d/n", v1, filesystem.DefaultUnixFileMode) })
+		run(func() { e2 = fs.MkdirAll("d/n", filesystem.DefaultUnixDirMode) })
+		run(func() { listed = zzNoDup(fs, "d") })
+	case 5: // ... the directory being the implicit parent of another file
+		nd.Assume(fs.MkdirAll("d", filesystem.DefaultUnixDirMode) == nil)
+		run(func() { e1 = fs.WriteFile("d/n", v1, filesystem.DefaultUnixFileMode) })
+		run(func() { e2 = fs.WriteFile("d/n/x", v2, filesystem.DefaultUnixFileMode) })
+		run(func() { listed = zzNoDup(fs, "d") })
 	}
 	wg.Wait()
 	_ = listed
+	if mode >= 4 {
+		// exactly one creation wins and the node is what the winner made
+		nd.Assert((e1 == nil) != (e2 == nil), "C09/kind-conflict-exactly-one-creation-succeeds")
+		if e1 == nil {
+			d, err := fs.ReadFile("d/n")
+			nd.Assert(err == nil && bytes.Equal(d, v1) && fs.IsFile("d/n"), "C09/kind-conflict-successful-write-visible")
+		} else {
+			nd.Assert(fs.IsDir("d/n"), "C09/kind-conflict-successful-mkdir-visible")
+			if mode == 5 {
+				d, err := fs.ReadFile("d/n/x")
+				nd.Assert(err == nil && bytes.Equal(d, v2), "C09/kind-conflict-successful-write-visible")
+			}
+		}
+		nd.Assert(zzNoDup(fs, "d"), "C09/listing-duplicates")
+		nd.Assert(zzIndexConsistent(fs.root), "C09/index-consistent")
+		nd.Reach("C09/same-end")
+		return
+	}
 	nd.Assert(e1 == nil && e2 == nil, "C09/same-node-ops-succeed")
 	switch mode {
 	case 0, 3:
